@@ -16,7 +16,12 @@ Requests are carried out in the order they were made (one request in flight: `C0
 concatenation, request after request, of the payloads appended for it.  `Entry.acked` records which kind of append
 it was.  The theorems (`AfkakProps/C09.lean`: `C09_log_order`, `C09_composed_log_order`,
 `C09_composed_duplicates_only_after_lost_ack`, `C09_composed_success_is_logged`) are about `brokerLog` of every
-model trace and every oracle.  The definitions are executable: the driver can evaluate them on implementation traces.
+model trace and every oracle.  They are derived at trace level from the monitors `order`, `oneBatch`, `retryOnlyFailed`,
+`payloads`, `successAcked` alone, so they hold of every implementation trace on which those monitors pass.  The
+definitions are executable (the non-vacuity examples evaluate them); the driver does NOT evaluate `brokerLog` on
+implementation traces and it is not compared with the simulated brokers' partition logs (audit round 2, C09-1: open).
+LIMIT of the abstraction: requests are appended in the order they were made; the oracle chooses WHETHER an unacknowledged
+payload was appended, not WHEN (a timed-out request applied by a broker after the retry is not expressible).
 -/
 namespace Afkak.Monitor.C09Log
 open Afkak.Producer Afkak.Monitor.ProducerTrace
